@@ -882,6 +882,29 @@ class IntWP:
         pre, post = self.replace[mg]
         if any(isinstance(v, Ref) for v in vals):
             raise Unsupported('contract replacement of a function with reference parameters')
+        if pre == 'UF':
+            # determinism abstraction: uninterpreted function of the (flattened) arguments
+            flat = []
+            for v in vals:
+                flat += list(v.values()) if isinstance(v, dict) else [v]
+            ft = X.FnTranslator(self.ex, d, 'c')
+            ft.collect_aliases(d)
+            rt = ft.ret_type(d, None, d['type']['qualType'])
+            base = 'uf_' + re.sub(r'[^A-Za-z0-9_]', '_', mg)[-40:]
+            fields = [f[1] for f in self.ex.structs[rt.base]] if rt.is_struct() else [None]
+            out = {}
+            for fld in fields:
+                name = base + ('_' + fld if fld else '')
+                decl = '(declare-fun %s (%s) Int)' % (name, ' '.join(['Int'] * len(flat)))
+                if decl not in self.decls:
+                    self.decls.append(decl)
+                out[fld] = self.define('uf', '(%s %s)' % (name, ' '.join(flat)))
+            res = out if rt.is_struct() else out[None]
+            if post:
+                # ... that additionally satisfies the function's (proved) contract
+                g = self.call_by_mangled(post, list(vals) + [res], 'true')
+                self.assumes.append('(=> %s %s)' % (path, self.as_bool(g)))
+            return res
         if pre:
             g = self.call_by_mangled(pre, list(vals), path)
             self.oblige('precondition', path, self.as_bool(g), 'requires %s at call of %s' % (pre, d.get('name')))
